@@ -68,7 +68,7 @@ def handle : List String → String
     | _, _, _ => "bad-op"
   | "satflags" :: rest => handleSat true rest
   | "sat" :: rest => handleSat false rest
-  | "exec" :: ctx :: sigs :: wit :: _lt :: _sq :: _ver :: toks =>
+  | "exec" :: ctx :: sigs :: wit :: lt :: sq :: ver :: toks =>
     -- sigs: `key:sig,…` (the signatures that verify for the spend); wit: the witness stack, bottom first;
     -- nLockTime, nSequence and version are for the implementation side (no lock time in the covered set)
     match readTable sigs, (if wit == "-" then some [] else (wit.splitOn ",").mapM fromHex?) with
@@ -77,7 +77,20 @@ def handle : List String → String
       let hashF : HashKind → Bytes → Bytes := fun h b => match h with
         | .sha256 => Btc.sha256 b | .hash256 => Btc.hash256 b | .ripemd160 => Btc.ripemd160 b
         | .hash160 => Btc.hash160 b
-      let E : EvalEnv := ⟨sigOK, hashF, fun _ => false, fun _ => false⟩
+      -- BIP112 / BIP65 on the number read from the stack (at most five bytes), against the spend's own
+      -- nSequence / nLockTime / version: the satisfier model's `olderMet` / `afterMet`
+      let env : SatEnv := ⟨[], [], lt.toNat?.getD 0, sq.toNat?.getD 0, ver.toNat?.getD 2⟩
+      let numOf : Bytes → Option Nat := fun v =>
+        if v.length > 5 then none else
+          let i := Btc.Script.decodeNum v
+          if i < 0 then none else some i.toNat
+      let csv : Bytes → Bool := fun v => match numOf v with
+        | some k => if Nat.land k (2 ^ 31) != 0 then true else olderMet env k
+        | none => false
+      let cltv : Bytes → Bool := fun v => match numOf v with
+        | some k => afterMet env k
+        | none => false
+      let E : EvalEnv := ⟨sigOK, hashF, csv, cltv⟩
       if accepts E c (opsOf c Btc.hash160 false n) w.reverse then "accept" else "reject"
     | _, _ => "bad-op"
   | "pushnum" :: [n] =>
